@@ -3,28 +3,34 @@
 # exit 0: property held on everything explored; 1: VIOLATION line printed; 2: inconclusive
 set -u
 cd "$(dirname "$0")"
+# everything is relative to where this script lives: /verif for the registered commands, a
+# snapshot directory under `vp run` (which then gets its own build output and evidence)
+ROOT="$(pwd -P)"
+if [ "$ROOT" != /verif ]; then
+    export VERIF_HOME="$ROOT"
+fi
 export CARGO_NET_OFFLINE=true
 export RUST_BACKTRACE=0
-HARNESS_DIR=/verif/harness
-BIN=/verif/target/harness/release/verif-harness
-CLI_TARGET=/verif/target/cli
-FUZZ_BIN=/verif/target/fuzz/x86_64-unknown-linux-gnu/release/prop
+HARNESS_DIR=$ROOT/harness
+BIN=$ROOT/target/harness/release/verif-harness
+CLI_TARGET=$ROOT/target/cli
+FUZZ_BIN=$ROOT/target/fuzz/x86_64-unknown-linux-gnu/release/prop
 
 build_harness() {
     # rebuilds /repo (path dependency, feature verif-hooks) from its current working tree
-    if ! (cd "$HARNESS_DIR" && cargo build --release --offline >/verif/target/harness-build.log 2>&1); then
-        mkdir -p /verif/target
-        echo "INCONCLUSIVE: the harness (or /repo with verif-hooks) does not build; see /verif/target/harness-build.log"
-        tail -n 30 /verif/target/harness-build.log
+    if ! (cd "$HARNESS_DIR" && CARGO_TARGET_DIR=$ROOT/target/harness cargo build --release --offline >$ROOT/target/harness-build.log 2>&1); then
+        mkdir -p $ROOT/target
+        echo "INCONCLUSIVE: the harness (or /repo with verif-hooks) does not build; see $ROOT/target/harness-build.log"
+        tail -n 30 $ROOT/target/harness-build.log
         exit 2
     fi
 }
 
 build_cli() {
     # the production binary: default features, hooks compiled out
-    if ! cargo build --release --offline --bin cfr --manifest-path /repo/Cargo.toml --target-dir "$CLI_TARGET" >/verif/target/cli-build.log 2>&1; then
-        echo "INCONCLUSIVE: the cfr binary does not build; see /verif/target/cli-build.log"
-        tail -n 30 /verif/target/cli-build.log
+    if ! cargo build --release --offline --bin cfr --manifest-path /repo/Cargo.toml --target-dir "$CLI_TARGET" >$ROOT/target/cli-build.log 2>&1; then
+        echo "INCONCLUSIVE: the cfr binary does not build; see $ROOT/target/cli-build.log"
+        tail -n 30 $ROOT/target/cli-build.log
         exit 2
     fi
 }
@@ -32,7 +38,7 @@ build_cli() {
 build_fuzz() {
     # libFuzzer target (coverage instrumentation, debug assertions on, no sanitizer: cfr has no
     # unsafe code and the address sanitizer costs a factor 12 here); rebuilds /repo as well
-    (cd "$HARNESS_DIR/fuzz" && cargo +nightly fuzz build -s none >/verif/target/fuzz-build.log 2>&1)
+    (cd "$HARNESS_DIR/fuzz" && CARGO_TARGET_DIR=$ROOT/target/fuzz cargo +nightly fuzz build -s none >$ROOT/target/fuzz-build.log 2>&1)
 }
 
 # second engine of the thorough tier: coverage-guided search over the same choice stream with the
@@ -42,10 +48,10 @@ fuzz_stage() {
     local seed=${VERIF_SEED:-1}
     local runs=${VERIF_FUZZ_RUNS:-150000}
     if ! build_fuzz; then
-        echo "NOTE: libFuzzer stage skipped, its target does not build (see /verif/target/fuzz-build.log); the proptest stage stands alone"
+        echo "NOTE: libFuzzer stage skipped, its target does not build (see $ROOT/target/fuzz-build.log); the proptest stage stands alone"
         return 0
     fi
-    local dir=/verif/target/fuzzrun/$id
+    local dir=$ROOT/target/fuzzrun/$id
     rm -rf "$dir"; mkdir -p "$dir/corpus"
     "$BIN" emit-corpus "$id" "$dir/corpus" 64
     local start=$(date +%s)
@@ -78,7 +84,7 @@ fuzz_stage() {
     return 0
 }
 
-mkdir -p /verif/target /verif/evidence
+mkdir -p $ROOT/target $ROOT/evidence
 case "${1:-}" in
     --setup)
         build_harness
